@@ -392,6 +392,31 @@ def solid_and_conversion(ctx):
                 or not np.all(np.isfinite(back)):
             ctx.violation("conversion:angles-out-of-range", "r<0, polar outside [0,pi], azimuth outside [-pi,pi] or non-finite",
                           {"route": "conv"})
+        # special directions have exactly known angles: the axes, the negative x axis (azimuth +-pi), the xy diagonals
+        if centre is not None or True:
+            c0 = np.zeros(3) if centre is None else centre
+            dirs = np.array([[1.0, 0, 0], [-1.0, 0, 0], [0, 1.0, 0], [0, -1.0, 0], [0, 0, 1.0], [0, 0, -1.0], [1.0, 1.0, 0], [-1.0, 1.0, 0],
+                             [-2.0, -2.0, 0], [0, 3.0, 3.0]])
+            want_t = np.array([0, PI, PI / 2, -PI / 2, None, None, PI / 4, 3 * PI / 4, -3 * PI / 4, PI / 2], dtype=object)
+            want_p = np.array([PI / 2, PI / 2, PI / 2, PI / 2, 0.0, PI, PI / 2, PI / 2, PI / 2, PI / 4])
+            got = np.asarray(convert_cart_to_sph(dirs * 2.0 + c0, None if centre is None else centre), dtype=float)
+            ctx.count(len(dirs), section="conversion")
+            for k in range(len(dirs)):
+                ok = abs(got[k, 0] - 2.0 * np.linalg.norm(dirs[k])) <= 1e-12 * (1 + np.linalg.norm(c0)) and abs(got[k, 2] - want_p[k]) <= 1e-9 * (1 + np.linalg.norm(c0))
+                if want_t[k] is not None:
+                    dt = abs(got[k, 1] - float(want_t[k]))
+                    ok = ok and min(dt, abs(dt - 2 * PI)) <= 1e-9 * (1 + np.linalg.norm(c0))
+                if not ok:
+                    ctx.violation("conversion:special-direction", f"convert_cart_to_sph of the point centre + 2 x {dirs[k].tolist()} gives "
+                                  f"(r, azimuth, polar) = {got[k].tolist()}", {"route": "conv"})
+                    break
+        # whole-number points in an integer dtype give the angles of their float copies
+        ints = np.array([[1, 0, 0], [-2, 1, 0], [0, 0, -3], [2, -2, 1], [0, 0, 0]])
+        gi = np.asarray(convert_cart_to_sph(ints, None if centre is None else centre), dtype=float)
+        gf = np.asarray(convert_cart_to_sph(ints.astype(float), None if centre is None else centre), dtype=float)
+        ctx.count(len(ints), section="conversion")
+        if gi.shape != gf.shape or not np.allclose(gi, gf, rtol=1e-14, atol=1e-14, equal_nan=False):
+            ctx.violation("conversion:integer-points-differ", "convert_cart_to_sph of an integer array differs from its float copy", {"route": "conv"})
         # generic interior points: sph -> cart -> sph is the identity
         gen = (sph[:, 0] > 1e-6) & (sph[:, 2] > 1e-3) & (sph[:, 2] < PI - 1e-3) & (np.abs(sph[:, 1]) < PI - 1e-3)
         b2 = back[: len(sph)][gen]
